@@ -65,9 +65,11 @@ def run_template(tpl):
             # the emitted SQL is outside the encoder (or is not SQL at all): probe the real engine concretely; a raw
             # (non-VTL) failure is a reproduced violation, anything else leaves the template not encoded
             info = case.probe_real(seed=int(os.environ.get("VERIF_SEED") or 0))
+            if info is None:
+                info = _concrete_fallback(case, tpl, REF)
             if info is not None:
                 info["script"] = out["script"]
-                out.update(status="violated", key="%s:%s" % (tpl["id"], _classify(info)), info=info, what=info["what"] + " - " + info["observed"][:160])
+                out.update(status="violated", key="%s:%s" % (tpl["id"], _classify(info)), info=info, what=info["what"] + " - " + str(info.get("observed"))[:160])
                 return out
             out.update(status="not_encoded", reason="SQL: %s" % str(e)[:300])
             return out
@@ -152,6 +154,60 @@ def run_template(tpl):
         return out
     finally:
         out["wall_s"] = round(time.time() - t0, 2)
+
+
+def _concrete_fallback(case, tpl, REF):
+    """The emitted SQL is outside the encoder: nothing is decided for this template.  As an auxiliary (NOT the deciding method)
+    a few random valid inputs are pushed through the real run() and compared with the reference evaluated on them, so that a
+    gross divergence hidden behind un-encodable SQL is still reported (it is a real failure of the real code)."""
+    import random
+    from vt import realrun as R
+    from vt.sqlsmt import equiv
+    from vt.sqlsmt.sym import Row, TRUE as _T, Unsupported
+    from vtlengine.Exceptions import VTLEngineException
+    try:
+        ref_cls = REF.Ref
+        if tpl.get("evaluator") == "time":
+            from vt.spec.timeref import TimeRef
+            ref_cls = TimeRef
+        ref = ref_cls(case.ctx, case.inputs, scalars=tpl.get("ref_scalars"))
+        ores = ref.run(tpl["ast"])
+    except Unsupported:
+        return None
+    rng = random.Random(int(os.environ.get("VERIF_SEED") or 0) + 17)
+    for k in range(6):
+        try:
+            asg, subs = case.random_assignment(rng)
+        except RuntimeError:
+            return None
+        memo = {}
+        dom = equiv.ceval(z3.And(*ref.domain), subs, memo) if ref.domain else z3.BoolVal(True)
+        may = equiv.ceval(z3.Or(*(ref.may_err + ref.must_err)), subs, memo) if (ref.may_err or ref.must_err) else z3.BoolVal(False)
+        if dom is None or not z3.is_true(dom) or may is None or z3.is_true(may):
+            continue
+        cin, dfs = equiv.frames(case, subs)
+        try:
+            res = R.run_ast(case.ast, case.struct_dict, dfs)
+        except VTLEngineException:
+            continue
+        except Exception:
+            continue
+        for name, v in ores.items():
+            if not isinstance(v, REF.RDS):
+                continue
+            exp_rows = equiv.expected_rows(case, v, subs)
+            if exp_rows is None or name not in res or not hasattr(res[name], "data") or res[name].data is None:
+                continue
+            diff = equiv.compare(exp_rows, res[name], v)
+            if diff is not None:
+                return dict(inputs=_json(cin), expected=_json(exp_rows), observed=[{c: R._norm(x) for c, x in row.items()} for row in res[name].data.to_dict("records")],
+                            what=diff, status="reproduced", note="found by the concrete fallback on un-encodable SQL (auxiliary, not a solver verdict)")
+    return None
+
+
+def _json(x):
+    from vt.sqlsmt.harness import _jsonable
+    return _jsonable(x)
 
 
 class _StructQ:
